@@ -550,6 +550,10 @@ def main():
                     elif strip(a).replace(" 1", " 0") != strip(b).replace(" 1", " 0"):
                         v["kind"] = "oracle"
                         v["detail"] = "slice and reader entry points give different values for one message | " + v["detail"]
+        elif "FRESH-DIFFERS" in rt or "INTERFERENCE-UNEXPECTED" in rt:
+            v["kind"] = "oracle"
+            v["detail"] = ("a configuration used before (incl. lent to a container-writer build that failed) gives another "
+                           "result than a fresh one for the same value | " + v["detail"])
         elif "THREADS-DIFFER" in rt:
             v["kind"] = "oracle"
             v["detail"] = ("three threads using one schema concurrently observed something else (a result, the schema's "
